@@ -26,10 +26,10 @@ man = {
     "version": 1,
     "setup_cmd": "sh tools/setup.sh",
     "hooks": {
-        "guard": "cargo feature `verif_hooks` (plonky2, starky)",
-        "enable": "the harness crate depends on /repo/plonky2 and /repo/starky with features=[\"verif_hooks\"] once hooks exist; at present no hook is needed: everything the harness uses is public API, so there is no hook commit in /repo (its only commits beyond the pinned one are the unguarded `fix:` repairs listed in known_findings.jsonl)",
+        "guard": "cargo feature `verif_hooks` of the plonky2 crate (off by default)",
+        "enable": "the harness crate depends on /repo/plonky2 with features=[\"verif_hooks\"]; one hook exists: plonky2::plonk::prover::verif_hooks::SLDC_COMPENSATE (an adversarial-prover knob: the lookup Sum/LDC accumulator is started from the value that makes it end at zero), compiled only with the feature and inactive unless the harness switches it on at run time; with the feature off (the default, used by the baseline suite) nothing changes. Every other /repo commit beyond the pinned one is an unguarded `fix:` repair listed in known_findings.jsonl",
         "baseline_off_cmd": "cd /repo && cargo test --workspace --no-fail-fast --offline",
-        "source_commits": [],
+        "source_commits": ["4c91423"],
         "add_only": True,
     },
     "engines": [{"name": "lean4-proof+correspondence", "path": "/verif/tools/check.py",
